@@ -43,42 +43,67 @@ Proof.
   destruct (prefixb p' u) eqn:E; auto. assert (In (p', r') (cands rs u)) by (apply in_cands; auto). rewrite H in *. contradiction.
 Qed.
 
+(* A converter is well-formed with respect to a record collection rs when each prefix / URI prefix has one owner
+   in rs and its indexes answer "the record of rs that lists the key".  Freshly constructed strict converters are
+   well-formed for the records they were given (mk_conv_wf); add_record preserves it (MutateFacts). *)
+Record wf (c : conv) (rs : list record) (d : str) : Prop := {
+  wf_own_p : one_owner all_prefixes rs;
+  wf_own_u : one_owner all_uris rs;
+  wf_delim : delim c = d;
+  wf_recs : forall r, In r rs <-> In r (recs c);
+  wf_syn : forall p, dget p (synmap c) = option_map r_prefix (owner_by_prefix rs p);
+  wf_pmap : forall p, dget p (pmap c) = option_map r_uri (owner_by_prefix rs p);
+  wf_trie : forall u, find u (ctrie c) = option_map r_prefix (owner all_uris rs u) }.
+
+Definition conv_query (q : query) : bool :=
+  match q with
+  | QBimap | QReverseBimap | QGetPrefixes _ | QGetUriPrefixes _ | QRecords
+  | QPrefixMap | QReversePrefixMap | QSynonymToPrefix | QPatternMap => false
+  | _ => true
+  end.
+Ltac modes := repeat match goal with b : bool |- _ => destruct b end; simpl; try reflexivity.
+
+Lemma owner_in rs p r : owner_by_prefix rs p = Some r -> In r rs /\ In p (all_prefixes r).
+Proof. intro H. apply find_some in H as [A B]. apply mem_In in B. auto. Qed.
+Lemma owner_u_in rs u r : owner all_uris rs u = Some r -> In r rs /\ In u (all_uris r).
+Proof. intro H. apply find_some in H as [A B]. apply mem_In in B. auto. Qed.
+Lemma sp_parse_uri_in rs u p i : sp_parse_uri rs u = Some (p, i) -> exists r, In r rs /\ p = r_prefix r.
+Proof.
+  unfold sp_parse_uri. destruct (longest_match rs u) as [[q r]|] eqn:E; [|discriminate].
+  intro H. inversion H; subst. apply longest_match_some in E as (A & _). eauto.
+Qed.
+Lemma sp_parse_curie_in d rs s p i : sp_parse_curie rs d s = Some (p, i) -> exists r, In r rs /\ p = r_prefix r.
+Proof.
+  unfold sp_parse_curie. destruct (partition d s) as [[p' i']|]; [|discriminate].
+  destruct (owner_by_prefix rs p') as [r|] eqn:E; [|discriminate]. intro H; inversion H; subst.
+  apply owner_in in E as [A _]. eauto.
+Qed.
+Lemma sp_parse_in d rs s p i : sp_parse rs d s = Some (p, i) -> exists r, In r rs /\ p = r_prefix r.
+Proof.
+  unfold sp_parse. destruct (sp_parse_uri rs s) as [[p' i']|] eqn:E.
+  - intro H; inversion H; subst. eapply sp_parse_uri_in; eauto.
+  - apply sp_parse_curie_in.
+Qed.
+Lemma sp_parse_uri_is rs u : sp_is_uri rs u = match sp_parse_uri rs u with Some _ => true | None => false end.
+Proof. unfold sp_is_uri, sp_parse_uri. destruct (longest_match rs u) as [[p r]|]; reflexivity. Qed.
+
+Module WF.
 Section Strict.
 Variables (d : str) (rs : list record) (c : conv).
-Hypothesis Hc : mk_conv true d rs = Val c.
+Hypothesis W : wf c rs d.
 
-Let inv := mk_conv_inv d rs c Hc.
-Lemma own_p : one_owner all_prefixes rs. Proof. apply inv. Qed.
-Lemma own_u : one_owner all_uris rs. Proof. apply inv. Qed.
-Lemma c_delim : delim c = d. Proof. apply inv. Qed.
-Lemma c_recs : recs c = sort_records rs. Proof. apply inv. Qed.
-
-Lemma L_synmap p : dget p (synmap c) = option_map r_prefix (owner_by_prefix rs p).
-Proof.
-  destruct inv as (A & B & _ & _ & _ & _ & _ & E & _). rewrite E.
-  apply idx_lookup; auto. intro r. symmetry. apply sort_records_In.
-Qed.
-Lemma L_pmap p : dget p (pmap c) = option_map r_uri (owner_by_prefix rs p).
-Proof.
-  destruct inv as (A & B & _ & _ & _ & _ & E & _). rewrite E.
-  apply idx_lookup; auto. intro r. symmetry. apply sort_records_In.
-Qed.
-Lemma L_rpmap u : dget u (rpmap c) = option_map r_prefix (owner all_uris rs u).
-Proof.
-  destruct inv as (A & B & _ & _ & _ & _ & _ & _ & E & _). rewrite E.
-  apply idx_lookup; auto. intro r. symmetry. apply sort_records_In.
-Qed.
-Lemma L_trie u : find u (ctrie c) = option_map r_prefix (owner all_uris rs u).
-Proof.
-  destruct inv as (_ & _ & _ & _ & _ & _ & _ & _ & E & T & _). rewrite T, find_trie_of; [apply L_rpmap|].
-  rewrite E. unfold idx_of. apply idx_keys_nodup. constructor.
-Qed.
+Lemma own_p : one_owner all_prefixes rs. Proof. exact (wf_own_p _ _ _ W). Qed.
+Lemma own_u : one_owner all_uris rs. Proof. exact (wf_own_u _ _ _ W). Qed.
+Lemma c_delim : delim c = d. Proof. exact (wf_delim _ _ _ W). Qed.
+Lemma L_synmap p : dget p (synmap c) = option_map r_prefix (owner_by_prefix rs p). Proof. exact (wf_syn _ _ _ W p). Qed.
+Lemma L_pmap p : dget p (pmap c) = option_map r_uri (owner_by_prefix rs p). Proof. exact (wf_pmap _ _ _ W p). Qed.
+Lemma L_trie u : find u (ctrie c) = option_map r_prefix (owner all_uris rs u). Proof. exact (wf_trie _ _ _ W u). Qed.
 Lemma L_get_record p : get_record c p = owner_by_prefix rs p.
 Proof.
-  unfold get_record. rewrite c_recs.
-  transitivity (owner all_prefixes (sort_records rs) p).
+  unfold get_record.
+  transitivity (owner all_prefixes (recs c) p).
   - unfold owner. apply find_ext. intro r. unfold all_prefixes. rewrite mem_cons, str_eqb_sym. reflexivity.
-  - apply owner_perm; [intro r; symmetry; apply sort_records_In | apply own_p].
+  - apply owner_perm; [intro r; apply (wf_recs _ _ _ W) | apply own_p].
 Qed.
 Lemma owner_canonical r : In r rs -> owner_by_prefix rs (r_prefix r) = Some r.
 Proof.
@@ -87,10 +112,6 @@ Proof.
   - pose proof (find_none _ _ E r Hr) as Hn. simpl in Hn.
     assert (mem (r_prefix r) (all_prefixes r) = true) by (apply mem_In; left; auto). congruence.
 Qed.
-Lemma owner_in p r : owner_by_prefix rs p = Some r -> In r rs /\ In p (all_prefixes r).
-Proof. intro H. apply find_some in H as [A B]. apply mem_In in B. auto. Qed.
-Lemma owner_u_in u r : owner all_uris rs u = Some r -> In r rs /\ In u (all_uris r).
-Proof. intro H. apply find_some in H as [A B]. apply mem_In in B. auto. Qed.
 Lemma owner_u_reg u r : In r rs -> In u (all_uris r) -> owner all_uris rs u = Some r.
 Proof.
   intros Hr Hu. unfold owner. destruct (List.find _ rs) as [r'|] eqn:E.
@@ -126,20 +147,8 @@ Proof.
     rewrite L_trie, Hf, (owner_u_reg p' r') in Hspec; auto. discriminate.
 Qed.
 
-Lemma sp_parse_uri_in u p i : sp_parse_uri rs u = Some (p, i) -> exists r, In r rs /\ p = r_prefix r.
-Proof.
-  unfold sp_parse_uri. destruct (longest_match rs u) as [[q r]|] eqn:E; [|discriminate].
-  intro H. inversion H; subst. apply longest_match_some in E as (A & _). eauto.
-Qed.
 
-Definition conv_query (q : query) : bool :=
-  match q with
-  | QBimap | QReverseBimap | QGetPrefixes _ | QGetUriPrefixes _ | QRecords
-  | QPrefixMap | QReversePrefixMap | QSynonymToPrefix | QPatternMap => false
-  | _ => true
-  end.
 
-Ltac modes := repeat match goal with b : bool |- _ => destruct b end; simpl; try reflexivity.
 
 Lemma A_parse_curie s st : vres voref (parse_curie c s st) = vres voref (wrap1 st EPrefixStd (sp_parse_curie rs d s)).
 Proof.
@@ -152,12 +161,6 @@ Proof.
   unfold parse_curie, sp_parse_curie. rewrite c_delim.
   destruct (partition d s) as [[p i]|]; [|reflexivity].
   rewrite L_synmap. destruct (owner_by_prefix rs p); reflexivity.
-Qed.
-Lemma sp_parse_curie_in s p i : sp_parse_curie rs d s = Some (p, i) -> exists r, In r rs /\ p = r_prefix r.
-Proof.
-  unfold sp_parse_curie. destruct (partition d s) as [[p' i']|]; [|discriminate].
-  destruct (owner_by_prefix rs p') as [r|] eqn:E; [|discriminate]. intro H; inversion H; subst.
-  apply owner_in in E as [A _]. eauto.
 Qed.
 Lemma A_expand_ref_known r i st pa : In r rs -> expand_reference c (r_prefix r, i) st pa = Val (Some (r_uri r ++ i)).
 Proof. intro Hr. unfold expand_reference. simpl. rewrite L_pmap, owner_canonical; auto. Qed.
@@ -181,8 +184,6 @@ Proof.
   unfold compress, sp_compress, format_curie. rewrite L_parse_uri, c_delim.
   destruct (sp_parse_uri rs u) as [[p i]|]; reflexivity.
 Qed.
-Lemma sp_parse_uri_is u : sp_is_uri rs u = match sp_parse_uri rs u with Some _ => true | None => false end.
-Proof. unfold sp_is_uri, sp_parse_uri. destruct (longest_match rs u) as [[p r]|]; reflexivity. Qed.
 Lemma A_is_uri u : is_uri c u = sp_is_uri rs u.
 Proof.
   unfold is_uri. rewrite A_compress, sp_parse_uri_is. unfold sp_compress.
@@ -221,12 +222,6 @@ Proof.
   destruct (owner_by_prefix rs p) eqn:Eo; [|reflexivity].
   rewrite A_parse_curie_false. unfold sp_parse_curie. rewrite Ep, Eo. reflexivity.
 Qed.
-Lemma sp_parse_in s p i : sp_parse rs d s = Some (p, i) -> exists r, In r rs /\ p = r_prefix r.
-Proof.
-  unfold sp_parse. destruct (sp_parse_uri rs s) as [[p' i']|] eqn:E.
-  - intro H; inversion H; subst. eapply sp_parse_uri_in; eauto.
-  - apply sp_parse_curie_in.
-Qed.
 Lemma A_std_uri u st pa : standardize_uri c u st pa = wrap st pa EURIStd u (sp_std_uri rs u).
 Proof.
   unfold standardize_uri. rewrite L_parse_uri. unfold sp_parse_uri, sp_std_uri.
@@ -263,4 +258,51 @@ Proof.
   - unfold format_curie. rewrite c_delim. reflexivity.
   - rewrite L_get_record. reflexivity.
 Qed.
+End Strict.
+End WF.
+
+(* ---- freshly constructed strict converters are well-formed ---- *)
+Lemma mk_conv_wf d rs c : mk_conv true d rs = Val c -> wf c rs d.
+Proof.
+  intro Hc. destruct (mk_conv_inv d rs c Hc) as (A & B & _ & _ & Ed & Er & Epm & Esyn & Erp & Et & _).
+  assert (P: forall r, In r rs <-> In r (sort_records rs)) by (intro r; symmetry; apply sort_records_In).
+  constructor; auto.
+  - intro r. rewrite Er. apply P.
+  - intro p. rewrite Esyn. apply idx_lookup; auto.
+  - intro p. rewrite Epm. apply idx_lookup; auto.
+  - intro u. rewrite Et, find_trie_of.
+    + rewrite Erp. apply idx_lookup; auto.
+    + rewrite Erp. unfold idx_of. apply idx_keys_nodup. constructor.
+Qed.
+
+Section Strict.
+Variables (d : str) (rs : list record) (c : conv).
+Hypothesis Hc : mk_conv true d rs = Val c.
+Let W := mk_conv_wf d rs c Hc.
+Definition own_p := WF.own_p d rs c W.
+Definition own_u := WF.own_u d rs c W.
+Definition c_delim := WF.c_delim d rs c W.
+Definition L_synmap := WF.L_synmap d rs c W.
+Definition L_pmap := WF.L_pmap d rs c W.
+Definition L_trie := WF.L_trie d rs c W.
+Definition L_get_record := WF.L_get_record d rs c W.
+Definition owner_canonical := WF.owner_canonical d rs c W.
+Definition owner_u_reg := WF.owner_u_reg d rs c W.
+Definition L_parse_uri := WF.L_parse_uri d rs c W.
+Definition A_parse_curie := WF.A_parse_curie d rs c W.
+Definition A_parse_curie_false := WF.A_parse_curie_false d rs c W.
+Definition A_expand_ref_known := WF.A_expand_ref_known d rs c W.
+Definition A_expand_ref := WF.A_expand_ref d rs c W.
+Definition A_expand := WF.A_expand d rs c W.
+Definition A_is_curie := WF.A_is_curie d rs c W.
+Definition A_compress := WF.A_compress d rs c W.
+Definition A_is_uri := WF.A_is_uri d rs c W.
+Definition A_parse_uri := WF.A_parse_uri d rs c W.
+Definition A_expand_pair_all := WF.A_expand_pair_all d rs c W.
+Definition A_expand_all := WF.A_expand_all d rs c W.
+Definition A_parse := WF.A_parse d rs c W.
+Definition A_parse_false := WF.A_parse_false d rs c W.
+Definition A_std_uri := WF.A_std_uri d rs c W.
+Definition answer_spec := WF.answer_spec d rs c W.
+Lemma c_recs : recs c = sort_records rs. Proof. apply (mk_conv_inv d rs c Hc). Qed.
 End Strict.
